@@ -667,6 +667,8 @@ func (l *IPFSLog) Join(otherLog iface.IPFSLog, size int) (iface.IPFSLog, error) 
 // snapshotForJoin returns the entries and the heads of a log as they were at one instant
 func snapshotForJoin(otherLog iface.IPFSLog) (iface.IPFSLogOrderedEntries, iface.IPFSLogOrderedEntries) {
 	if o, ok := otherLog.(*IPFSLog); ok {
+		defer verifPoint("unlock.r", o)
+		verifPoint("lock.r", o)
 		o.lock.RLock()
 		defer o.lock.RUnlock()
 
